@@ -184,6 +184,9 @@ def install(eng):
         if re.search(r'^<&?(UQ|Rot3) as std::ops::Mul<&?Iso3>>::mul$', g):
             R, B = D(st, a[0]), D(st, a[1]); return one(st, Iso(mmul(R, B.R), mmul(R, B.t)))
         if re.search(r'^<&?Tr3 as std::ops::Mul<&?(UQ|Rot3)>>::mul$', g): return one(st, Iso(D(st, a[1]), D(st, a[0]).items[0]))
+        if re.search(r'(^|::)Tr3::inverse$|na::translation::<impl Tr3>::inverse$|na::Translation::<f64, 3>::inverse$', g): return one(st, Agg([mscale(fc(-1), D(st, a[0]).items[0])], 'Tr3'))
+        if re.search(r'^<&?Iso3 as std::ops::Mul<&?Tr3>>::mul$', g):
+            A = D(st, a[0]); return one(st, Iso(A.R, madd(A.t, mmul(A.R, D(st, a[1]).items[0]))))
         if re.search(r'Iso3::inverse$|na::isometry::<impl Iso3>::inverse$', g): return one(st, iso_inv(D(st, a[0])))
         if re.search(r'Iso3::(append|prepend)_(translation|rotation)(_wrt_center)?(_mut)?$', g):
             A = D(st, a[0]); X_ = D(st, a[1]); mm_ = re.search(r'(append|prepend)_(translation|rotation)(_wrt_center)?(_mut)?$', g)
